@@ -87,6 +87,9 @@ pub enum FsOp {
     Touch { path: String },
     /// new content, mtime restored to what it was
     WriteKeepMtime { path: String, content: String },
+    /// same-length in-place rewrite through a shared memory mapping: inotify reports no
+    /// IN_MODIFY for it, only IN_CLOSE_WRITE when the descriptor is closed
+    WriteMmap { path: String, content: String },
     /// new content with an mtime OLDER than the current one (an older revision moved in place)
     WriteOlder { path: String, content: String },
     Create { path: String, content: String },
